@@ -130,11 +130,15 @@ def body(case, acc):
         if starts != runs:
             viol = Violation("C19:graph-start-per-quad", f"{starts} graph starts for {runs} runs of equal graph names", case)
     # (v) size
-    if viol is None and stmts:
+    kinds = [a["kind"] for a in res.audit]
+    has_empty_graph = any(k == "graph_start" and kinds[i + 1:i + 2] == ["graph_end"] for i, k in enumerate(kinds))
+    # an empty graph block (rdflib Datasets always carry their default graph) is content the naive per-quad encoding
+    # has no counterpart for: the size bound is not asserted for such streams
+    if viol is None and stmts and not has_empty_graph:
         ground = stmts
         if not sequence_input:
             ground = [[list(t) for t in e] for e in res.events if e[0] != "prefix"]
-        naive = jellyenc.naive_size(ground, case["phys"], case["preset"])
+        naive = jellyenc.naive_size(ground, case["phys"], case["preset"], options=res.options)
         actual = sum(len(f) for f in (__import__("vlib.wire", fromlist=["x"]).split_delimited(data) if delimited else [data]))
         # compare row payloads only (frame envelopes are a framing choice, not compression)
         rows_actual = 0
@@ -177,5 +181,5 @@ def run_shard(spec) -> Acc:
 
 
 def plan(tier, seed):
-    n = 250 if tier == "quick" else 6000
+    n = 400 if tier == "quick" else 6000
     return [{"shard": i, "n": n} for i in range(16)]
